@@ -8,7 +8,34 @@ let v2_setup sym aead cs sk salt =
   let (key, iv) = Seipd2.derive Prims.hkdf sym aead cs salt sk in
   (Seipd2.chunk_len cs, key, iv, Seipd2.info_of sym aead cs)
 
+(* packet 20 (GnuPG / LibrePGP OCB encrypted data): fields as read from the container *)
+let gdec ver sym aead cs key iv ct sched =
+  let symn = nn sym and aeadn = nn aead and csn = nn cs in
+  let ks = int_of_n (Seipd2.key_size symn) and ns = int_of_n (Seipd2.nonce_size aeadn) in
+  let keyb = bytes_of_hex key and ivb = bytes_of_hex iv and ctb = bytes_of_hex ct in
+  (* what the library refuses before any decryption: version, a mode other than OCB, a cipher it does not know, chunk sizes above 4 MiB,
+     a key or IV of the wrong size *)
+  if ver <> "1" || aead <> "2" || ks = 0 || ns = 0 || int_of_string cs > 16 || Stdlib.List.length keyb <> ks || Stdlib.List.length ivb <> ns then "ERR -"
+  else begin
+    let (out, ok) = Gnupg.gnupg_stream_dec (Prims.aopen aeadn symn) symn aeadn csn keyb ivb ctb in
+    let spec = (if ok then "OK " else "ERR ") ^ hex_of_bytes out in
+    match sched with
+    | [consumer; reqs] ->
+      let rl = if reqs = "_" || reqs = "" then [] else Stdlib.List.map int_of_string (Stdlib.String.split_on_char ',' reqs) in
+      let ra = Array.of_list rl in
+      let floor = 1 + Stdlib.List.length ctb / 2000 in
+      let req (i : BinNums.coq_N) : BinNums.coq_N =
+        if consumer = "0" || Array.length ra = 0 then n_of_int 1048576
+        else n_of_int (Stdlib.max floor (Stdlib.min 1048576 ra.((int_of_n i) mod Array.length ra))) in
+      let (mo, oc) = Gnupg.gnupg_run (Prims.aopen aeadn symn) symn aeadn csn keyb ivb req ctb in
+      let mach = (match oc with Seipd2Machine.AClean -> "OK " | Seipd2Machine.AFailed -> "ERR " | Seipd2Machine.AOutOfFuel -> "FUEL ") ^ hex_of_bytes mo in
+      if mach = spec then spec else "MODEL-SPLIT spec=" ^ Stdlib.String.sub spec 0 (Stdlib.min 40 (Stdlib.String.length spec)) ^ " machine=" ^ Stdlib.String.sub mach 0 (Stdlib.min 40 (Stdlib.String.length mach))
+    | _ -> spec
+  end
 let handle = function
+  | "gdec" :: ver :: sym :: aead :: cs :: key :: iv :: ct :: sched -> gdec ver sym aead cs key iv ct sched
+  | ["genc"; sym; aead; cs; key; iv; p] ->
+    hex_of_bytes (Gnupg.gnupg_enc (Prims.seal (nn aead) (nn sym)) (nn sym) (nn aead) (nn cs) (bytes_of_hex key) (bytes_of_hex iv) (bytes_of_hex p))
   | ["v2enc"; sym; aead; cs; sk; salt; p] ->
     let sym = nn sym and aead = nn aead and cs = nn cs in
     let (c, key, iv, info) = v2_setup sym aead cs (bytes_of_hex sk) (bytes_of_hex salt) in
